@@ -20,8 +20,6 @@ import (
 	"sync"
 	"time"
 
-	"github.com/php-any/origami/lexer"
-
 	"verif/lib"
 )
 
@@ -234,7 +232,7 @@ func (d *driver) spanCases() {
 	// corpus files with injections at seeded token boundaries / CRLF conversion
 	r := e.Rand("span-inject")
 	flush(true)
-	nInject := e.Pick(4000, 100000)
+	nInject := e.Pick(8000, 100000)
 	for i := 0; i < nInject && len(corpus) > 0; i++ {
 		c := corpus[r.Intn(len(corpus))]
 		mode := "script"
@@ -249,7 +247,7 @@ func (d *driver) spanCases() {
 
 	// generated programs (fault-free), in the mode they are written for and in the other one
 	r = e.Rand("span-gen")
-	nGen := e.Pick(5000, 100000)
+	nGen := e.Pick(10000, 100000)
 	for i := 0; i < nGen; i++ {
 		p := genProgram(r, false, d.q)
 		src, _ := p.render()
@@ -271,7 +269,7 @@ func (d *driver) spanCases() {
 
 	// lexical soup
 	r = e.Rand("span-soup")
-	nSoup := e.Pick(3000, 60000)
+	nSoup := e.Pick(6000, 60000)
 	for i := 0; i < nSoup; i++ {
 		s := genSoup(r, d.q)
 		mode := "script"
@@ -588,7 +586,7 @@ func (d *driver) errloc() {
 		e.Inconclusive(fmt.Sprintf("only %d of %d fault kinds produce a diagnostic in a plain program", len(enabled), len(faultKinds)))
 	}
 	r := e.Rand("errloc")
-	n := e.Pick(1500, 30000)
+	n := e.Pick(3000, 30000)
 	var cases []*locCase
 	for i := 0; i < n; i++ {
 		p := genProgram(r, true, d.q)
@@ -673,7 +671,7 @@ func (d *driver) judgeAll(cases []*locCase, family string) {
 		what := fmt.Sprintf("planted fault %q on line %d of %s, but the diagnostic says %q (file %q line %d); minimal program: fault on line %d of %q",
 			c.p.Fault.Kind, c.want, filepath.Base(c.o.Path), c.o.Diag.Raw, c.o.Diag.File, c.o.Diag.Line, mwant, msrc)
 		ext := "zy"
-		if c.p.Mode == "php" {
+		if min.Mode == "php" {
 			ext = "php"
 		}
 		e.Violation(key, what, ext, []byte(msrc))
@@ -724,5 +722,4 @@ func gencheckMain(args []string) {
 		fmt.Printf("fault %-22s ok=%v msg=%q %s\n", k, ok, msg, note)
 	}
 	fmt.Println("bad chunk kinds:", bad)
-	_ = lexer.NewLexer
 }
